@@ -12,7 +12,7 @@ NS = 6
 RULE = ("case = one operation history (1..~600 ops) on six handle slots of Array/Stack/Queue of int, String or a counted "
         "element type with a heap payload: new/copy/assign/drop handles, append, insert at every position, self-referential "
         "insert/append (a << a[j], a.insert(k, a[j]), a.insert(k, b[j]) with b sharing the block, a.append(a), a.copy(a)), "
-        "remove(i,n), removeOne, removeLast, resize up/down, reserve, clear, sort (both overloads), sortBy, pointer variants Array(p,n)/copy(p,n)/append(p,n), operator-comma, range-for / foreach / Enumerator / slice_, slice, clone, dup, concat, "
+        "remove(i,n), removeOne, removeLast, resize up/down, reserve, clear, sort (both overloads), sortBy, pointer variants Array(p,n)/copy(p,n)/append(p,n) incl. p inside the same array, remove with counts up to INT_MAX, operator-comma, range-for / foreach / Enumerator / slice_, slice, clone, dup, concat, "
         "reversed, filter, removeIf, copy, element writes, push/pop/popget/top, put/get; after every op the length, elements, "
         "rc() and cap() of all six handles (and the live-object counter) are compared; non-trivial = distinct history with a "
         "mid-array insert/remove and at least one capacity growth")
@@ -28,9 +28,10 @@ TECHNIQUE = ("Lean 4 theorems (block-level refinement of the cell-level member f
              "sequences, lifecycle invariant) + differential correspondence check under ASan/LSan with an independent python oracle")
 LEVEL_TEXT = ("Proved in Lean 4 about the executable model the driver runs (AslModel/Array.lean: every member of Array written as the "
               "code's sequence of placement-construct / destroy / memmove / malloc-or-realloc steps on raw cells, blocks with header "
-              "n/s/rc, handles as block ids, relocation on growth): (1) layerB_refines / layerB_self_reference - for every block, "
+              "n/s/rc, handles as block ids, relocation on growth): (1) layerB_refines / layerB_self_reference / layerB_pointer_self_reference - for every block, "
               "capacity and in-range argument each member (reserve on both allocation paths, resize, insert incl. an element of the "
-              "same array, remove, removeIf, append incl. append(a), copy) touches only constructed cells inside the block, "
+              "same array, remove incl. counts beyond the end, removeIf, append incl. append(a) and append(a.data()+j,k), copy incl. "
+              "copy(a.data()+j,k)) touches only constructed cells inside the block, "
               "constructs and destroys each element exactly once (explicit live counter) and computes the list function of the "
               "reference semantics; (2) array_refines_every_run - for EVERY finite history of the 41 protocol operations as the driver "
               "runs it (an operation that would increase the capacity of a block whose rc > 1 is left out, by the same decidable guard "
@@ -49,8 +50,7 @@ LEVEL_TEXT = ("Proved in Lean 4 about the executable model the driver runs (AslM
 LEVEL_NOTE = ("Known finding shared-growth: operations that would increase the capacity of a block whose rc > 1 are excluded (left out "
               "by harness and model; the theorems are about exactly those runs). Not covered by model or harness: converting "
               "constructor / operator=(Array<K>), operator=(Var), initializer-list constructor/assignment/append, map / map_ / with, "
-              "operator< of arrays, join, deprecated destroy()/ptr conversions, shuffle; copy(p,n)/append(p,n) only with p outside the "
-              "array. sortBy: in bounds, terminating, permutation proved; sortedness only where the key order is strict total on the "
+              "operator< of arrays, join, deprecated destroy()/ptr conversions, shuffle. sortBy: in bounds, terminating, permutation proved; sortedness only where the key order is strict total on the "
               "elements (int, counted), String keys (length) with ties are compared by K only. sort is modelled on the element sequence "
               "(reads/assignments), not on cells: the pivot copy and the swap temporaries of quicksort never touch the model's live "
               "counter, so constructed-once/destroyed-once for those temporaries rests on the harness counter and LSan (K) only; the "
@@ -364,6 +364,26 @@ class Ref:
             return "ok"
         if op == "iter":
             return "ok"
+        if op == "appown":
+            j = int(a[1]) % (n + 1)
+            k = int(a[2]) % (n - j + 1)
+            if self.blocked(n + k > c.cap, shared):
+                return "skipg"
+            self.reserve(c, n + k)
+            self.stats["self_ref"] += 1
+            l.extend(l[j:j + k])
+            return "ok"
+        if op == "copyown":
+            j = int(a[1]) % (n + 1)
+            k = int(a[2]) % (n - j + 1)
+            self.stats["self_ref"] += 1
+            l[:] = l[j:j + k]
+            return "ok"
+        if op == "remx":
+            i, k = int(a[1]), int(a[2])
+            if i + k <= n:
+                del l[i:i + k]
+            return "ok"
         if op == "copyp":
             xs = [dec(T, x) for x in a[1:]]
             if self.blocked(len(xs) > c.cap, shared):
@@ -522,7 +542,7 @@ BOUNDARY = {"i": [3, 6, 12, 24, 48, 96, 192, 384, 511, 512, 513, 768, 1024], "s"
             "c": [3, 6, 12, 24, 48, 96, 192, 255, 256, 257, 384, 512]}
 
 
-MAYGROW = ("app", "push", "put", "ins", "appo", "inso", "insx", "rsz", "res", "apnd", "copy", "copyp", "appp")
+MAYGROW = ("app", "push", "put", "ins", "appo", "inso", "insx", "rsz", "res", "apnd", "copy", "copyp", "appp", "appown")
 
 
 def gen_case(rng, t, cont, nops, profile, exclusive=False):
@@ -598,8 +618,16 @@ def gen_case(rng, t, cont, nops, profile, exclusive=False):
         elif w < 0.64:
             k = rng.choice([0, 1, 2, 3, rng.randrange(9), (c.cap - n + 1) if c is not None else 4])
             vs = " ".join(rval(rng, t) for _ in range(max(k, 0)))
-            o = rng.choice(["appp", "appp", "copyp", "newp", "iter"])
-            emit("iter %d" % h if o == "iter" else ("%s %d %s" % (o, h, vs)).strip())
+            o = rng.choice(["appp", "appp", "copyp", "newp", "iter", "appown", "appown", "copyown", "remx"])
+            if o == "iter":
+                emit("iter %d" % h)
+            elif o in ("appown", "copyown"):
+                emit("%s %d %d %d" % (o, h, rng.choice([0, 1, rng.randrange(n + 1)]), rng.choice([n, 1, 2, rng.randrange(n + 2)])))
+            elif o == "remx":
+                emit("remx %d %d %d" % (h, rng.choice([0, 1, n, n + 1, rng.randrange(n + 2)]),
+                                        rng.choice([2147483647, 2147483646, n + 1, n, 1, rng.randrange(n + 3)])))
+            else:
+                emit(("%s %d %s" % (o, h, vs)).strip())
         elif w < 0.67:
             emit("slice %d %d %d %d" % (rng.randrange(NS), h, rng.randrange(n + 1), rng.randrange(n + 1)))
         elif w < 0.70:
